@@ -6,6 +6,7 @@ import (
 	"fmt"
 	"os"
 	"sort"
+	"sync"
 	"time"
 )
 
@@ -33,9 +34,13 @@ type Report struct {
 	Extra        map[string]interface{} `json:"extra,omitempty"`
 	WallS        float64                `json:"wall_s"`
 
+	Partial bool `json:"partial,omitempty"` // written before the campaign ended (checkpoint after a violation, or a watchdog)
+
 	start    time.Time
 	distinct map[string]bool
 	maxViol  int
+	out      string
+	mu       sync.Mutex
 }
 
 type campaignFlags struct {
@@ -60,7 +65,7 @@ func parseFlags(name string, args []string) campaignFlags {
 
 func newReport(prop string, f campaignFlags) *Report {
 	return &Report{Property: prop, Seed: f.seed, Tier: f.tier, Distribution: map[string]int{},
-		start: time.Now(), distinct: map[string]bool{}, maxViol: 20, Extra: map[string]interface{}{}}
+		start: time.Now(), distinct: map[string]bool{}, maxViol: 20, Extra: map[string]interface{}{}, out: f.out}
 }
 
 func (r *Report) count(key string, n int) { r.Distribution[key] += n }
@@ -87,8 +92,56 @@ func (r *Report) violate(v Violation) {
 	r.distinct["viol/"+v.Sig] = true
 	if len(r.Violations) < r.maxViol {
 		r.Violations = append(r.Violations, v)
+		r.checkpoint()
 	} else {
 		r.count("violations_dropped", 1)
+	}
+}
+
+// checkpoint writes the report as it stands (marked partial): if the campaign is killed later (a hang of
+// the implementation under test), the violations found so far are not lost.
+func (r *Report) checkpoint() {
+	if r.out == "" {
+		return
+	}
+	r.Partial = true
+	r.WallS = time.Since(r.start).Seconds()
+	if b, err := json.MarshalIndent(r, "", " "); err == nil {
+		os.WriteFile(r.out, b, 0o644)
+	}
+	r.Partial = false
+}
+
+// guard runs fn under a watchdog. If fn does not return within limit the implementation hangs on this
+// input: a violation is recorded, the report is written and the process exits (the stuck goroutine can not
+// be stopped).
+func (r *Report) guard(limit time.Duration, v Violation, fn func()) {
+	done := make(chan struct{})
+	var pv interface{}
+	go func() {
+		defer close(done)
+		defer func() { pv = recover() }()
+		fn()
+	}()
+	select {
+	case <-done:
+		if pv != nil {
+			panic(pv)
+		}
+	case <-time.After(limit):
+		r.mu.Lock()
+		v.Detail = fmt.Sprintf("no return after %s: %s", limit, v.Detail)
+		r.count("violation:"+v.Sig, 1)
+		r.Violations = append(r.Violations, v)
+		r.Partial = true
+		r.WallS = time.Since(r.start).Seconds()
+		b, _ := json.MarshalIndent(r, "", " ")
+		if r.out != "" {
+			os.WriteFile(r.out, b, 0o644)
+		} else {
+			fmt.Println(string(b))
+		}
+		os.Exit(1)
 	}
 }
 
@@ -112,3 +165,20 @@ func (r *Report) finish(f campaignFlags) int {
 
 // jsonUnmarshal decodes b into v (out is only used to keep call sites short).
 func jsonUnmarshal(b []byte, v interface{}, out interface{}) error { return json.Unmarshal(b, v) }
+
+// tryRun runs fn and gives up waiting after limit (fn keeps running in its goroutine: used while shrinking,
+// where a candidate that hangs is simply not taken).
+func tryRun(limit time.Duration, fn func()) bool {
+	done := make(chan struct{})
+	go func() {
+		defer close(done)
+		defer func() { recover() }()
+		fn()
+	}()
+	select {
+	case <-done:
+		return true
+	case <-time.After(limit):
+		return false
+	}
+}
